@@ -1,14 +1,80 @@
-import Gallia.Model.UdsResp
+import Gallia.Proofs.Lemmas.UdsResp
 import Gallia.Gen.C02Registry
+/-
+  C02 — Decoded UDS responses expose the received fields and re-encode to the same bytes.
+  Property theorems only; helper lemmas are in `Proofs/Lemmas/UdsResp.lean`.
+  `decodeResp` is the oracle (ISO 14229-1 layouts, lossless reading of gallia's length / format rules, gated by the
+  response registry); the correspondence harness compares the real `UDSResponse.parse_dynamic` / `.pdu` with it.
+-/
 namespace Gallia.C02
 open Gallia Gallia.UdsResp
 
-/-- (T) the hand-written response registry equals the table regenerated from the live classes -/
-theorem responseRegistry_agrees : Gen.C02Registry.responseRegistry = registryRows := by
-  rfl
+/-! ### (T) regenerated tables -/
 
+/-- the hand-written response registry (class, parser family, response id, dispatch, SUB_FUNCTION_ID, sub-function
+    gate, minimal / maximal length) equals the table regenerated from the live classes on every run -/
+theorem responseRegistry_agrees : Gen.C02Registry.responseRegistry = registryRows := by rfl
+
+/-- the NRC bytes a typed negative response may carry are exactly `UDSErrorCodes` -/
 theorem nrc_agrees : Gen.C02Registry.errorCodes = nrcTable := by decide
 
 theorem dtcFormat_agrees : Gen.C02Registry.dtcFormats = dtcFormatTable := by decide
+
+/-! ### losslessness -/
+
+/-- **the property's core**: whatever byte string the decoder accepts — typed positive, negative or raw — the
+    object it returns re-serialises to exactly the received bytes. For ALL byte strings, no length bound. -/
+theorem encodeResp_decodeResp (b : Bytes) (r : Resp) (h : decodeResp b = .ok r) : encodeResp r = b := by
+  unfold decodeResp at h
+  split at h
+  · cases h
+  · cases h; rfl
+  · exact parseKind_ok h
+
+/-- never silently normalised: two different received byte strings never yield the same object -/
+theorem decodeResp_injective (b₁ b₂ : Bytes) (r : Resp) (h₁ : decodeResp b₁ = .ok r) (h₂ : decodeResp b₂ = .ok r) :
+    b₁ = b₂ := by
+  rw [← encodeResp_decodeResp b₁ r h₁, ← encodeResp_decodeResp b₂ r h₂]
+
+/-- the typed object's constructor is the parser family of the class the registry dispatches to -/
+theorem decodeResp_kind (b : Bytes) (r : Resp) (e : Entry) (h : decodeResp b = .ok r)
+    (hd : dispatch b = .ok (some e)) : r.kind? = some e.kind := by
+  unfold decodeResp gate at h
+  rw [hd] at h
+  simp only at h
+  unfold checkEntry at h
+  split at h
+  · cases h
+  · rename_i e' hg
+    split at hg
+    · cases hg
+    · split at hg <;> cases hg
+  · rename_i e' hg
+    split at hg
+    · cases hg
+    · split at hg
+      · cases hg
+      · cases hg; exact parseKind_kind h
+
+/-- unknown service or unknown sub-function: kept raw, byte for byte -/
+theorem decodeResp_raw_keeps (b : Bytes) (h : gate b = .ok .raw) : decodeResp b = .ok (.rawPos b) := by
+  simp [decodeResp, h]
+
+/-! ### rejection by the registry's length gates -/
+
+/-- a PDU shorter than the minimal length of the class it is dispatched to is rejected -/
+theorem decodeResp_rejects_short (b : Bytes) (e : Entry) (hd : dispatch b = .ok (some e))
+    (hl : b.length < e.minLen) : decodeResp b = .error .tooShort := by
+  simp [decodeResp, gate, hd, checkEntry, lenGate, hl]
+
+/-- a PDU longer than the maximal length of the class it is dispatched to is rejected -/
+theorem decodeResp_rejects_long (b : Bytes) (e : Entry) (m : Nat) (hd : dispatch b = .ok (some e))
+    (hm : e.maxLen = some m) (hl : b.length > m) : ∃ r, decodeResp b = .error r := by
+  by_cases hs : b.length < e.minLen
+  · exact ⟨_, decodeResp_rejects_short b e hd hs⟩
+  · exact ⟨.tooLong, by simp [decodeResp, gate, hd, checkEntry, lenGate, hs, hm, hl]⟩
+
+/-- the empty PDU is rejected -/
+theorem decodeResp_rejects_empty : decodeResp [] = .error .empty := by rfl
 
 end Gallia.C02
